@@ -288,6 +288,8 @@ func describeHistory(h []string) string {
 	switch {
 	case has(killAfterIdle):
 		return "restarted-after-sigkill-after-idle-shard-flush"
+	case has(killAfterSlowFlush):
+		return "restarted-after-sigkill-after-a-flush-during-which-entries-were-applied"
 	case has("kill-during-flush"):
 		return "restarted-after-sigkill-during-flush"
 	case has(unreplTail):
